@@ -1,5 +1,300 @@
 import Banyan.Model.Util
-open Banyan
+import Banyan.Model.C14
+open Banyan Banyan.C14
 
-/- stub: model driver for C14 not built yet -/
-def main : IO Unit := runDriver fun _ => "bad-op"
+/-!
+Model driver for C14.  Every op of the case line is executed by *running the atomic-step programs
+of `Banyan.C14.tstep` to completion* (`State.call`), one after the other – the op-granularity
+sequential differential of DESIGN.md 6/C14 (ii).  Controller-level procedures (select, segments,
+remove, …) are the control flow of segment.go over several single-segment states.
+
+`drv_c14` models the repaired callers; `drv_c14 --legacy` models the callers as written
+(pin-if-active followed by an unconditional DecRef; `segments(true)` without unwinding).
+-/
+
+namespace C14Drv
+
+def nClients : Nat := 10
+def sys : Tid := 10
+
+structure World where
+  segs : Array State
+  listed : Array Bool
+  fail : Array Nat
+  held : Array (Array Nat)                      -- client → segment → count
+  peeked : Array (Option (List (Nat × Bool)))   -- client → last stats peek (segment, pinned)
+  closed : Bool := false
+  hook : Option (Nat × Nat) := none             -- armed: client, segment
+  hookRes : String := ""
+  legacy : Bool := false
+  broken : Bool := false                        -- a model call was not enabled (driver bug)
+
+def b01 (b : Bool) : String := if b then "1" else "0"
+
+def World.k (w : World) : Nat := w.segs.size
+
+def World.seg (w : World) (i : Nat) : State := w.segs[i]!
+
+def World.setSeg (w : World) (i : Nat) (s : State) : World := { w with segs := w.segs.set! i s }
+
+def World.th (w : World) (i : Nat) (t : Tid) : Th := (w.seg i).ts[t]!
+
+/-- call procedure `p` of segment `i` on thread `t`, to completion -/
+def World.call (w : World) (i : Nat) (t : Tid) (p : Proc) : World :=
+  let ok := (w.fail[i]!) == 0
+  match (w.seg i).call t p ok with
+  | some s => w.setSeg i s
+  | none => { w with broken := true }
+
+def resTok : Res → String
+  | .ok => "ok" | .closedErr => "closed" | .initErr => "ierr" | .none => "none"
+
+def World.dump (w : World) : String :=
+  ",".intercalate <| (List.range w.k).map fun i =>
+    let sh := (w.seg i).sh
+    s!"{sh.rc}.{b01 sh.isOpen}.{b01 sh.mbd}.{b01 sh.dir}.{b01 (!w.closed && w.listed[i]!)}"
+
+def World.listedIdx (w : World) : List Nat := (List.range w.k).filter fun i => w.listed[i]!
+
+def World.addHeld (w : World) (c i : Nat) : World :=
+  { w with held := w.held.set! c ((w.held[c]!).set! i ((w.held[c]!)[i]! + 1)) }
+
+def World.subHeld (w : World) (c i : Nat) : World :=
+  { w with held := w.held.set! c ((w.held[c]!).set! i ((w.held[c]!)[i]! - 1)) }
+
+/-- `segment.incRef` by thread `t`; returns success -/
+def World.incRef (w : World) (t : Tid) (i : Nat) : World × Bool :=
+  let w := w.call i t .incRef
+  (w, (w.th i t).res == .ok)
+
+/-- `DecRef` as issued by a caller that believes it pinned: owned if the thread really owns a
+reference, stray otherwise (only possible for legacy callers) -/
+def World.decRefAny (w : World) (t : Tid) (i : Nat) : World :=
+  if (w.th i t).holds > 0 then w.call i t .decRef else w.call i t .decRefStray
+
+/-- run thread `t` of segment `i` through procedure `p`, firing the armed hook (another thread's
+incRef on another segment) right after the step that closes open resources – the moment the real
+`TSTable.Close` runs inside `closeResourcesLocked`. -/
+def World.callHooked (w : World) (i : Nat) (t : Tid) (p : Proc) : World := Id.run do
+  match w.hook with
+  | none => return w.call i t p
+  | some (hc, hi) =>
+    let ok := (w.fail[i]!) == 0
+    let s0 := w.seg i
+    let some th0 := s0.ts[t]? | return { w with broken := true }
+    let some (sh1, th1) := tstep t s0.sh th0 p ok | return { w with broken := true }
+    let mut sh := sh1
+    let mut th := th1
+    let mut w := w
+    for _ in [0:24] do
+      if th.pc == .idle then break
+      let closing := (th.pc == .pdClose || th.pc == .ciClose || th.pc == .clClose) && sh.isOpen
+      match tstep t sh th .incRef ok with
+      | none => break
+      | some (sh', th') =>
+        sh := sh'
+        th := th'
+        if closing && w.hook.isSome then
+          -- publish the intermediate state, then let the other thread run
+          w := w.setSeg i { sh := sh, ts := s0.ts.set t th }
+          w := { w with hook := none }
+          if hi == i then
+            w := { w with hookRes := "+h:blocked" }
+          else
+            let (w', okk) := w.incRef hc hi
+            w := if okk then w'.addHeld hc hi else w'
+            w := { w with hookRes := "+h:" ++ resTok (w.th hi hc).res }
+    return w.setSeg i { sh := sh, ts := (w.seg i).ts.set t th }
+
+def World.delete (w : World) (i : Nat) : World :=
+  let w := w.callHooked i sys .delete
+  { w with listed := w.listed.set! i false }
+
+/-- `remove` / `deleteExpiredSegments` / `getExpiredSegmentsTimeRange`: `victims` are deleted.
+legacy: `segments(false)` pins the active ones first and DecRefs every segment afterwards. -/
+def World.sweep (w : World) (victims : List Nat) : World := Id.run do
+  let lst := w.listedIdx
+  let mut w := w
+  if w.legacy then
+    for i in lst do
+      w := w.call i sys .peek
+  for i in lst do
+    if victims.contains i then
+      w := w.delete i
+    if w.legacy then
+      w := w.decRefAny sys i
+  return w
+
+def digit (c : Char) : Nat := c.toNat - 48
+
+def World.releaseAll (w : World) (c : Nat) : World := Id.run do
+  let mut w := w
+  match w.peeked[c]! with
+  | some l =>
+    for (i, pinned) in l do
+      if w.legacy then w := w.decRefAny c i
+      else if pinned then w := w.callHooked i c .decRef
+    w := { w with peeked := w.peeked.set! c none }
+  | none => pure ()
+  for i in [0:w.k] do
+    for _ in [0:(w.held[c]!)[i]!] do
+      w := w.callHooked i c .decRef
+      w := w.subHeld c i
+  return w
+
+def World.op (w : World) (o : String) : World × String :=
+  match o.toList with
+  | ['a', c, i] =>
+    let (c, i) := (digit c, digit i)
+    let (w, ok) := w.incRef c i
+    ((if ok then w.addHeld c i else w), resTok (w.th i c).res)
+  | ['r', c, i] =>
+    let (c, i) := (digit c, digit i)
+    if (w.held[c]!)[i]! == 0 then (w, "-")
+    else ((w.callHooked i c .decRef).subHeld c i, "ok")
+  | ['u', c, i] =>
+    let (c, i) := (digit c, digit i)
+    if (w.held[c]!)[i]! == 0 then (w, "-")
+    else (w, b01 ((w.seg i).sh.isOpen && (w.seg i).sh.dir))
+  | ['s', c, lo, hi] =>
+    let (c, lo, hi) := (digit c, digit lo, digit hi)
+    if w.closed then (w, "ok:") else
+    let ids := (w.listedIdx.filter fun i => lo ≤ i && i ≤ hi).reverse
+    let r := selectLoop (fun w i => w.incRef c i) (fun w i => w.callHooked i c .decRef)
+      (fun w i => w.call i c (.touch 2)) w ids []
+    match r with
+    | (w, some tt) =>
+      let w := tt.foldl (fun w i => w.addHeld c i) w
+      (w, "ok:" ++ String.join ((tt.reverse).map toString))
+    | (w, none) =>
+      -- report the error of the failing incRef
+      let bad := ids.find? fun i => (w.th i c).res == .closedErr || (w.th i c).res == .initErr
+      (w, match bad with | some i => resTok (w.th i c).res | none => "ierr")
+  | ['p', c, lo, hi] =>
+    let (c, lo, hi) := (digit c, digit lo, digit hi)
+    if (w.peeked[c]!).isSome then (w, "-") else
+    if w.closed then ({ w with peeked := w.peeked.set! c (some []) }, "ok:") else
+    let ids := (w.listedIdx.filter fun i => lo ≤ i && i ≤ hi).reverse
+    let (w, l) := ids.foldl (fun (acc : World × List (Nat × Bool)) i =>
+      let w := acc.1.call i c .peek
+      (w, acc.2 ++ [(i, (w.th i c).flag)])) (w, [])
+    let shown := String.join (l.reverse.map fun (i, p) => toString i ++ (if p then "+" else "-"))
+    ({ w with peeked := w.peeked.set! c (some l) }, "ok:" ++ shown)
+  | ['q', c] =>
+    let c := digit c
+    match w.peeked[c]! with
+    | none => (w, "-")
+    | some l =>
+      let w := l.foldl (fun w (ip : Nat × Bool) =>
+        if w.legacy then w.decRefAny c ip.1
+        else if ip.2 then w.callHooked ip.1 c .decRef else w) w
+      ({ w with peeked := w.peeked.set! c none }, "ok")
+  | ['g', i] =>
+    let i := digit i
+    let s := w.seg i
+    (w.setSeg i { s with sh := { s.sh with la := 0 } }, "ok")
+  | ['G'] =>
+    ((List.range w.k).foldl (fun w i =>
+      let s := w.seg i
+      w.setSeg i { s with sh := { s.sh with la := 0 } }) w, "ok")
+  | ['i'] =>
+    let (w, n) := w.listedIdx.foldl (fun (acc : World × Nat) i =>
+      let w := acc.1.callHooked i sys (.closeIfIdle 1)
+      (w, if (w.th i sys).flag then acc.2 + 1 else acc.2)) (w, 0)
+    (w, toString n)
+  | ['t', j] =>
+    let j := digit j
+    (w.sweep (w.listedIdx.filter (· < j)), "ok")
+  | ['o'] =>
+    if w.closed then (w, "0") else
+    match w.listedIdx with
+    | i :: _ :: _ => (w.delete i, "1")
+    | _ => (w, "0")
+  | ['x', i] =>
+    let i := digit i
+    let n := if w.listed[i]! then 1 else 0
+    (w.sweep (if w.listed[i]! then [i] else []), toString n)
+  | ['e'] => (w.sweep [], "ok")
+  | ['n'] =>
+    if w.closed then (w, "err") else
+    if w.listedIdx.isEmpty then (w, "0") else
+    let (w, any) := w.listedIdx.foldl (fun (acc : World × Bool) i =>
+      let w := acc.1.callHooked i sys .snapshot
+      (w, acc.2 || (w.th i sys).flag)) (w, false)
+    (w, b01 any)
+  | ['m'] =>
+    if w.closed then (w, "0") else
+    let (w, n) := w.listedIdx.foldl (fun (acc : World × Nat) i =>
+      let w := acc.1.call i sys .read
+      (w, if (w.th i sys).flag then acc.2 + 1 else acc.2)) (w, 0)
+    (w, toString n)
+  | ['k'] =>
+    if w.closed then (w, "-") else
+    let ids := w.listedIdx
+    let inc := fun (w : World) i => w.incRef sys i
+    let dec := fun (w : World) i => w.callHooked i sys .decRef
+    let r := if w.legacy then segmentsLoop_legacy inc w ids [] else segmentsLoop inc dec w ids []
+    match r with
+    | (w, some tt) =>
+      -- resetIndex on every segment that ended before the tick, then DecRef all
+      let w := tt.foldl (fun w i => if i + 1 < w.k then w.call i sys .read else w) w
+      let w := tt.foldl dec w
+      (w, "ok:" ++ toString tt.length)
+    | (w, none) =>
+      let bad := ids.find? fun i => (w.th i sys).res == .closedErr || (w.th i sys).res == .initErr
+      (w, match bad with | some i => resTok (w.th i sys).res | none => "ierr")
+  | ['f', i, v] => ({ w with fail := w.fail.set! (digit i) (digit v) }, "ok")
+  | ['c'] =>
+    if w.closed then (w, "-") else
+    let w := w.listedIdx.foldl (fun w i => w.callHooked i sys .close) w
+    ({ w with closed := true, listed := w.listed.map fun _ => false }, "ok")
+  | ['R'] => ((List.range nClients).foldl (fun w c => w.releaseAll c) w, "ok")
+  | ['h', c, i] => ({ w with hook := some (digit c, digit i) }, "ok")
+  | _ => ({ w with broken := true }, "bad-op")
+
+def freshSeg : State :=
+  let s : State := { sh := Shared.init, ts := List.replicate (nClients + 1) Th.init }
+  -- CreateSegmentIfNotExist: create (dormant), incRef, lastAccessed := now, caller DecRef
+  let s := (s.call sys .incRef).getD s
+  let s := (s.call sys (.touch 2)).getD s
+  (s.call sys .decRef).getD s
+
+def World.create (k : Nat) (legacy : Bool) : World :=
+  { segs := Array.replicate k freshSeg, listed := Array.replicate k true, fail := Array.replicate k 0,
+    held := Array.replicate nClients (Array.replicate k 0), peeked := Array.replicate nClients none,
+    legacy := legacy }
+
+def validOp (k : Nat) (o : String) : Bool :=
+  let dOk (c : Char) (m : Nat) := c.isDigit && digit c < m
+  match o.toList with
+  | ['a', c, i] | ['r', c, i] | ['u', c, i] | ['h', c, i] => dOk c 10 && dOk i k
+  | ['s', c, lo, hi] | ['p', c, lo, hi] => dOk c 10 && dOk lo k && dOk hi k
+  | ['q', c] => dOk c 10
+  | ['g', i] | ['x', i] => dOk i k
+  | ['t', j] => dOk j (k + 1)
+  | ['f', i, v] => dOk i k && dOk v 3
+  | ['G'] | ['i'] | ['o'] | ['e'] | ['n'] | ['m'] | ['k'] | ['c'] | ['R'] => true
+  | _ => false
+
+def handle (legacy : Bool) (line : String) : String :=
+  match words line with
+  | "stress" :: _ => "-"
+  | _ :: k :: ops =>
+    match k.toNat? with
+    | some k =>
+      if k < 1 || k > 6 || !(ops.all (validOp k)) then "bad-op" else
+      let w := World.create k legacy
+      let (w, out) := ops.foldl (fun (acc : World × List String) o =>
+        let (w, r) := acc.1.op o
+        -- the hook is armed for the op that follows `h` only
+        let (w, r) := if o.startsWith "h" then (w, r)
+          else ({ w with hook := none, hookRes := "" }, r ++ w.hookRes)
+        (w, acc.2 ++ [r ++ "=" ++ w.dump])) (w, ["init=" ++ w.dump])
+      if w.broken then "MODEL-STUCK " ++ " ".intercalate out else " ".intercalate out
+    | none => "bad-op"
+  | _ => "bad-op"
+
+end C14Drv
+
+def main (args : List String) : IO Unit :=
+  runDriver (C14Drv.handle (args.contains "--legacy"))
